@@ -19,8 +19,8 @@ def jobs(tier):
     for shape in range(len(DEP_SHAPES)):
         for kind in ('include', 'after'):
             for before in ('text', 'run'):
-                for after in ('run', 'include2'):
-                    if tier == 'quick' and (before, after) not in (('text', 'run'), ('run', 'include2')):
+                for after in ('run', 'include2', 'after2'):
+                    if tier == 'quick' and (before, after) not in (('text', 'run'), ('run', 'include2'), ('text', 'after2')):
                         continue
                     js.append({'name': 'lemma first-pass deps shape=%d %s before=%s after=%s' % (shape, kind, before, after),
                                'harness': (H2, 'h_deps'), 'params': {'mode': 'Build', 'shape': shape, 'kind': kind, 'before': before, 'after': after}})
